@@ -380,6 +380,9 @@ pub fn diff_match(a: &Out<Vec<RMatchT>>, b: &Out<Vec<RMatchT>>, p: &Proj) -> Opt
         (Err(x), Ok(_)) => Some(format!("impl rejects ({} {}), model accepts", x.kind, x.detail)),
         (Ok(_), Err(y)) => Some(format!("impl accepts, model rejects ({} {})", y.kind, y.detail)),
         (Ok(x), Ok(y)) => {
+            // a security with neither legs nor a pool has no output on either side
+            let x: Vec<&RMatchT> = x.iter().filter(|t| t.pool.is_some() || !t.legs.is_empty()).collect();
+            let y: Vec<&RMatchT> = y.iter().filter(|t| t.pool.is_some() || !t.legs.is_empty()).collect();
             if x.len() != y.len() {
                 return Some(format!("securities with output: impl {:?} vs model {:?}", x.iter().map(|t| &t.ticker).collect::<Vec<_>>(), y.iter().map(|t| &t.ticker).collect::<Vec<_>>()));
             }
